@@ -1408,7 +1408,7 @@ fn grid() {
             let mut bad: Vec<String> = Vec::new();
             for first_cap in [0usize, 1, 8] {
                 for other_len in [0usize, 1, 5, 40] {
-                    for how in 0..6 {
+                    for how in 0..9 {
                         let (a, b) = (Bump::new(), Bump::new());
                         let mut x: BVec<u64> = BVec::with_capacity_in(first_cap, &a);
                         let mut y: BVec<u64> = BVec::new_in(&b);
@@ -1422,7 +1422,11 @@ fn grid() {
                             // (clone_from is `*self = source.clone()`: the result is a vector of the source's
                             // arena by definition, so it is not part of this check)
                             4 => { for v in y.iter() { x.push(*v); } }
-                            _ => { let mut z = y.clone(); x.append(&mut z); if !inside(&b, z.as_ptr() as usize, z.capacity() * 8) { bad.push(format!("clone_left_arena_b cap={} len={}", first_cap, other_len)); } }
+                            6 => { x.splice(.., y.drain(..)); }
+                            7 => { x = BVec::from_iter_in(y.drain(..), &a); }
+                            8 => { let sl: &[u64] = &y; x.extend_from_slices_copy(&[sl]); }
+                            5 => { let mut z = y.clone(); x.append(&mut z); if !inside(&b, z.as_ptr() as usize, z.capacity() * 8) { bad.push(format!("clone_left_arena_b cap={} len={}", first_cap, other_len)); } }
+                            _ => unreachable!(),
                         }
                         let tag = format!("how={} cap={} len={}", how, first_cap, other_len);
                         if x.as_slice() != want.as_slice() { bad.push(format!("contents {}", tag)); }
@@ -1440,14 +1444,27 @@ fn grid() {
                 }
             }
             // strings
-            for how in 0..3 {
+            for how in 0..7 {
                 let (a, b) = (Bump::new(), Bump::new());
                 let mut x = bumpalo::collections::String::new_in(&a);
                 let y = bumpalo::collections::String::from_str_in("héllo wörld €", &b);
-                match how { 0 => x.push_str(&y), 1 => x.insert_str(0, &y), _ => x.extend(y.chars()) }
+                match how {
+                    0 => x.push_str(&y),
+                    1 => x.insert_str(0, &y),
+                    2 => x.extend(y.chars()),
+                    // extending by owned strings of the other arena, by &str, by +=, collecting into a
+                    3 => x.extend(std::iter::once(y.clone())),
+                    4 => x.extend([y.as_str()]),
+                    5 => x += &y,
+                    _ => { x = bumpalo::collections::String::from_iter_in(y.chars(), &a); }
+                }
                 if x.as_str() != y.as_str() { bad.push(format!("string_contents how={}", how)); }
                 if !inside(&a, x.as_ptr() as usize, x.capacity()) { bad.push(format!("string_x_not_in_a how={}", how)); }
                 if !inside(&b, y.as_ptr() as usize, y.capacity()) { bad.push(format!("string_y_not_in_b how={}", how)); }
+                let (ab, bb) = (a.allocated_bytes(), b.allocated_bytes());
+                for _ in 0..200 { x.push_str("grow "); }
+                if b.allocated_bytes() != bb || a.allocated_bytes() < ab { bad.push(format!("string_growth_charged_to_b how={}", how)); }
+                if !inside(&a, x.as_ptr() as usize, x.capacity()) { bad.push(format!("string_x_left_a_after_growth how={}", how)); }
             }
             println!("I cross_arena_collections | {}", if bad.is_empty() { "ok".to_string() } else { bad.iter().take(4).cloned().collect::<Vec<_>>().join(";") });
         }
